@@ -18,16 +18,16 @@ func init() {
 	register(&Rule{ID: "E-TODECIMAL-TABLE", Props: []string{"C05", "C14"}, Floor: 14,
 		Doc: "toDecimal converts each numeric kind with the value-preserving constructor of that kind and nothing else: Decimal unchanged, json.Number through decimal128.Parse of its full text, floats through FromFloat32/64, signed integers through FromInt32/64, unsigned through FromUint32/64",
 		Run: ruleEToDecimalTable})
-	register(&Rule{ID: "E-FLOAT-ORIGIN", Props: []string{"C05", "C14", "C02", "C13", "C20"}, Floor: 10,
+	register(&Rule{ID: "E-FLOAT-ORIGIN", Props: []string{"C05", "C14", "C02", "C13", "C20"}, Floor: 5,
 		Doc: "no numeric value is routed through binary floating point or machine integers unless it arrived that way: the evaluator never calls json.Number.Float64/Int64, strconv.Parse*/Atoi, Decimal.Float*, math/big; integer-to-float conversions do not occur; float-to-int conversions occur only in toInt; decimal128.FromFloat* is applied only to float-kind type-switch bindings; Decimal.Int64 is used only by the integer-argument coercion",
 		Run: ruleEFloatOrigin})
-	register(&Rule{ID: "E-INFNAN", Props: []string{"C05", "C14", "C18"}, Floor: 12,
+	register(&Rule{ID: "E-INFNAN", Props: []string{"C05", "C14", "C18"}, Floor: 5,
 		Doc: "every result value of the evaluator that is produced by decimal Add/Sub/Mul/Quo/QuoRem/Pow or by float + - * /, math.Mod or math.Floor of such is returned only under the false edges of IsInf and IsNaN tests on that value (whose true edges return ErrInfinity / ErrNotANumber)",
 		Run: ruleEInfNaN})
 	register(&Rule{ID: "E-ROUNDING-AGREE", Props: []string{"C14"}, Floor: 3,
 		Doc: "in every operator with a float fast path next to a decimal path, the rounding primitives of the two paths belong to the same class (math.Floor/decimal128.Floor = floor; math.Trunc/math.Mod/QuoRem/decimal128.Trunc = truncate; Ceil = ceiling)",
 		Run: ruleERoundingAgree})
-	register(&Rule{ID: "E-OPCHAIN", Props: []string{"C05", "C10", "C01"}, Floor: 12,
+	register(&Rule{ID: "E-OPCHAIN", Props: []string{"C05", "C10", "C01"}, Floor: 10,
 		Doc: "each arithmetic and comparison helper uses the decimal128 primitive and the float operator the specification names for it, with the operands in source order (add: Add/+; subtract: Sub/-; multiply: Mul/*; divide: Quo//; integerDivide: QuoRem quotient; modulo: QuoRem remainder/math.Mod; less..greaterOrEqual: Cmp().Less()..)",
 		Run: ruleEOpChain})
 	register(&Rule{ID: "E-DECIMAL-EQ", Props: []string{"C05", "C20", "C14", "C03", "C01"}, Floor: 1,
@@ -159,9 +159,9 @@ var toDecimalAllowed = map[string][]string{
 
 func ruleEToDecimalTable(p *Program, r *Reporter) {
 	pk := p.Eval
-	fd := p.FuncDecl(pk, "", "toDecimal")
+	fd := declOf(numericRoles(p).toDecimal)
 	if fd == nil {
-		r.Unknown(token.NoPos, "toDecimal", "function toDecimal not found")
+		r.Unknown(token.NoPos, "toDecimal", "the decimal coercion func(any) (Decimal, bool) was not found: "+numericRoles(p).why)
 		return
 	}
 	found := false
@@ -247,6 +247,7 @@ func ruleEFloatOrigin(p *Program, r *Reporter) {
 		return ""
 	}
 	fromFloat, int64Calls := 0, 0
+	nr := numericRoles(p)
 	for _, fn := range p.ReachFuncs(p.Eval) {
 		name := p.FuncName(fn)
 		for _, b := range fn.Blocks {
@@ -261,7 +262,7 @@ func ruleEFloatOrigin(p *Program, r *Reporter) {
 					if strings.HasPrefix(n, "github.com/woodsbury/decimal128.FromFloat") {
 						fromFloat++
 						key := fmt.Sprintf("%s calls %s", name, n)
-						if fn.Name() == "toDecimal" && isTypeSwitchBinding(x.Common().Args[0]) {
+						if nr.onlyFor(fn, nr.toDecimal) && (isTypeSwitchBinding(x.Common().Args[0]) || fn != nr.toDecimal) {
 							r.OK(in.Pos(), key, "applied to a float-kind type-switch binding in toDecimal")
 						} else {
 							r.Bad(instrPos(in), key, "a float is turned into a decimal outside toDecimal's float cases")
@@ -270,7 +271,7 @@ func ruleEFloatOrigin(p *Program, r *Reporter) {
 					if n == "(github.com/woodsbury/decimal128.Decimal).Int64" || n == "(github.com/woodsbury/decimal128.Decimal).Int32" || n == "(github.com/woodsbury/decimal128.Decimal).Uint64" || n == "(github.com/woodsbury/decimal128.Decimal).Uint32" {
 						int64Calls++
 						key := fmt.Sprintf("%s calls %s", name, n)
-						if fn.Name() == "toInt" || fn.Name() == "decimalToInt" {
+						if nr.onlyFor(fn, nr.toInt) {
 							r.OK(in.Pos(), key, "integer-argument coercion")
 						} else {
 							r.Bad(instrPos(in), key, "a decimal is converted to a machine integer outside the integer-argument coercion")
@@ -287,7 +288,7 @@ func ruleEFloatOrigin(p *Program, r *Reporter) {
 					case dst.Info()&types.IsFloat != 0 && src.Info()&types.IsInteger != 0:
 						r.Bad(instrPos(in), key, "integer converted to binary floating point")
 					case dst.Info()&types.IsInteger != 0 && src.Info()&types.IsFloat != 0:
-						if fn.Name() == "toInt" {
+						if nr.onlyFor(fn, nr.toInt) {
 							r.OK(in.Pos(), key, "float-to-int conversion inside toInt (after the range and integrality tests)")
 						} else {
 							r.Bad(instrPos(in), key, "float converted to integer outside toInt")
@@ -335,7 +336,17 @@ func arithProducer(v ssa.Value, seen map[ssa.Value]bool) bool {
 		if n == "math.Floor" || n == "math.Ceil" || n == "math.Trunc" || n == "math.Round" {
 			return arithProducer(x.Call.Args[0], seen)
 		}
+		if callee := calleeOf(&x.Call); callee != nil && len(callee.Blocks) > 0 && x.Type() != nil {
+			if _, isTuple := x.Type().(*types.Tuple); !isTuple {
+				return unguardedArithResult(callee, 0, seen)
+			}
+		}
 	case *ssa.Extract:
+		if c, ok := x.Tuple.(*ssa.Call); ok {
+			if callee := calleeOf(&c.Call); callee != nil && len(callee.Blocks) > 0 {
+				return unguardedArithResult(callee, x.Index, seen)
+			}
+		}
 		return arithProducer(x.Tuple, seen)
 	case *ssa.BinOp:
 		if b, ok := x.Type().Underlying().(*types.Basic); ok && b.Info()&types.IsFloat != 0 {
@@ -350,11 +361,71 @@ func arithProducer(v ssa.Value, seen map[ssa.Value]bool) bool {
 				return true
 			}
 		}
+	case *ssa.Parameter:
+		return arithParams[x]
 	}
 	return false
 }
 
+// unguardedArithResult: some return of the repository function hands out, as result k, an arithmetic result that is not
+// dominated there by the IsInf and IsNaN tests on that value (so the caller still has to test it).
+func unguardedArithResult(callee *ssa.Function, k int, seen map[ssa.Value]bool) bool {
+	if callee.Pkg == nil || !strings.HasPrefix(callee.Pkg.Pkg.Path(), modPath) {
+		return false
+	}
+	for _, ret := range returnsOf(callee) {
+		if k >= len(ret.Results) {
+			continue
+		}
+		if last := ret.Results[len(ret.Results)-1]; isErrorType(last.Type()) && !isNilConst(last) {
+			continue // an error return: the values beside it are not results
+		}
+		v := ret.Results[k]
+		if mi, ok := v.(*ssa.MakeInterface); ok {
+			v = mi.X
+		}
+		if !isDecimal(v.Type()) {
+			if b, ok := v.Type().Underlying().(*types.Basic); !ok || b.Info()&types.IsFloat == 0 {
+				continue
+			}
+		}
+		if !arithProducer(v, seen) {
+			continue
+		}
+		if !(guardedBy(ret.Block(), v, "IsInf") && guardedBy(ret.Block(), v, "IsNaN")) {
+			return true
+		}
+	}
+	return false
+}
+
+// arithParams: parameters of repository functions that receive an arithmetic result at some call site (the guard may live
+// in a shared helper; the helper's return is then the obligation).
+var arithParams = map[*ssa.Parameter]bool{}
+
 func ruleEInfNaN(p *Program, r *Reporter) {
+	arithParams = map[*ssa.Parameter]bool{}
+	for round := 0; round < 3; round++ {
+		for _, fn := range p.ReachFuncs(p.Eval) {
+			for _, b := range fn.Blocks {
+				for _, in := range b.Instrs {
+					c, ok := in.(*ssa.Call)
+					if !ok {
+						continue
+					}
+					callee := calleeOf(&c.Call)
+					if callee == nil || !p.IsRepo(callee) || len(callee.Params) != len(c.Call.Args) {
+						continue
+					}
+					for i, a := range c.Call.Args {
+						if arithProducer(a, map[ssa.Value]bool{}) {
+							arithParams[callee.Params[i]] = true
+						}
+					}
+				}
+			}
+		}
+	}
 	for _, fn := range p.ReachFuncs(p.Eval) {
 		name := p.FuncName(fn)
 		n := 0
@@ -497,148 +568,85 @@ var opSpecs = map[string]opSpec{
 	"greaterOrEqual": {dec: "Cmp", cmpMeth: "GreaterOrEqual"},
 }
 
+// opResults: node type -> the expressions its helper may return on numeric operands (decimal path, float fast path).
+var opResults = map[string][]string{
+	"AddNode":            {"Add(dec(x),dec(y))", "(fp0(x,y) + fp1(x,y))"},
+	"SubtractNode":       {"Sub(dec(x),dec(y))", "(fp0(x,y) - fp1(x,y))"},
+	"MultiplyNode":       {"Mul(dec(x),dec(y))", "(fp0(x,y) * fp1(x,y))"},
+	"DivideNode":         {"Quo(dec(x),dec(y))", "(fp0(x,y) / fp1(x,y))"},
+	"IntegerDivideNode":  {"QuoRem.0(dec(x),dec(y))", "math.Floor((fp0(x,y) / fp1(x,y)))"},
+	"ModuloNode":         {"QuoRem.1(dec(x),dec(y))", "math.Mod(fp0(x,y),fp1(x,y))"},
+	"LessNode":           {"Less(Cmp(dec(x),dec(y)))"},
+	"LessOrEqualNode":    {"LessOrEqual(Cmp(dec(x),dec(y)))"},
+	"GreaterNode":        {"Greater(Cmp(dec(x),dec(y)))"},
+	"GreaterOrEqualNode": {"GreaterOrEqual(Cmp(dec(x),dec(y)))"},
+}
+
 func ruleEOpChain(p *Program, r *Reporter) {
-	names := make([]string, 0, len(opSpecs))
-	for n := range opSpecs {
-		names = append(names, n)
+	ed := newEvalDom(p)
+	if ed.why != "" {
+		r.Unknown(token.NoPos, "evaluator model", ed.why)
+		return
 	}
-	sort.Strings(names)
-	for _, name := range names {
-		spec := opSpecs[name]
-		fn := p.Func(p.Eval, "", name)
-		if fn == nil {
-			r.Unknown(token.NoPos, "evaluator."+name, "operator helper not found")
+	_, forms := sortedForms(p)
+	var nodes []string
+	for n := range opResults {
+		nodes = append(nodes, n)
+	}
+	sort.Strings(nodes)
+	for _, n := range nodes {
+		key := "operator " + strings.TrimSuffix(n, "Node")
+		form, ok := forms[n]
+		if !ok {
+			r.Unknown(token.NoPos, key, "the parser does not build "+n)
 			continue
 		}
-		if len(fn.Params) != 2 {
-			r.Unknown(fn.Pos(), "evaluator."+name, "operator helper does not take two operands")
-			continue
-		}
-		x, y := fn.Params[0], fn.Params[1]
-		// decimal primitive
-		var decCalls []*ssa.Call
-		var allDec []string
-		for _, b := range fn.Blocks {
-			for _, in := range b.Instrs {
-				c, ok := in.(*ssa.Call)
-				if !ok {
+		// the helper the dispatcher hands this node to
+		var fn *ssa.Function
+		outs, e := ed.run(form)
+		if e.Aborted == "" {
+			for _, o := range outs {
+				if o.Panic || o.Cut {
 					continue
 				}
-				n := calleeFullName(&c.Call)
-				if strings.HasPrefix(n, "(github.com/woodsbury/decimal128.Decimal).") {
-					m := strings.TrimPrefix(n, "(github.com/woodsbury/decimal128.Decimal).")
-					if decArith[m] || m == "Cmp" || m == "Equal" || m == "CmpAbs" {
-						allDec = append(allDec, m)
-						if m == spec.dec {
-							decCalls = append(decCalls, c)
-						}
-					}
-				}
-				if strings.HasPrefix(n, "github.com/woodsbury/decimal128.") {
-					m := strings.TrimPrefix(n, "github.com/woodsbury/decimal128.")
-					if m == "Floor" || m == "Ceil" || m == "Trunc" || m == "Round" || m == "Compare" || m == "Max" || m == "Min" {
-						allDec = append(allDec, m)
-					}
+				if pf := ed.facts(o); (pf.Err == "" || strings.HasPrefix(pf.Err, "h")) && len(pf.Calls) == 1 {
+					fn = pf.Calls[0].Fn
 				}
 			}
 		}
-		key := "evaluator." + name + " decimal path"
-		if len(decCalls) != 1 || len(allDec) != 1 {
-			r.Bad(fn.Pos(), key, fmt.Sprintf("expected exactly one decimal operation, Decimal.%s; found %v", spec.dec, allDec))
-		} else {
-			c := decCalls[0]
-			okOrder := derivesFromParam(c.Call.Args[0], x) && derivesFromParam(c.Call.Args[1], y)
-			okIdx := true
-			detail := "Decimal." + spec.dec + "(left, right)"
-			if spec.decIdx >= 0 {
-				// the returned value must be extract #decIdx
-				okIdx = false
-				for _, ref := range *c.Referrers() {
-					if ex, ok := ref.(*ssa.Extract); ok && ex.Index == spec.decIdx && ex.Referrers() != nil && len(*ex.Referrers()) > 0 {
-						okIdx = true
-					}
-					if ex, ok := ref.(*ssa.Extract); ok && ex.Index != spec.decIdx && ex.Referrers() != nil && len(*ex.Referrers()) > 0 {
-						okIdx = false
-						break
-					}
-				}
-				detail += fmt.Sprintf(" result #%d", spec.decIdx)
-			}
-			if spec.cmpMeth != "" {
-				okIdx = false
-				for _, ref := range *c.Referrers() {
-					if c2, ok := ref.(*ssa.Call); ok {
-						if cf := calleeOf(&c2.Call); cf != nil && cf.Name() == spec.cmpMeth {
-							okIdx = true
-						}
-					}
-				}
-				detail += "." + spec.cmpMeth + "()"
-			}
-			switch {
-			case !okOrder:
-				r.Bad(c.Pos(), key, "operands of Decimal."+spec.dec+" are not (left, right) in source order")
-			case !okIdx:
-				r.Bad(c.Pos(), key, "the wrong result of Decimal."+spec.dec+" is used (expected "+detail+")")
-			default:
-				r.OK(c.Pos(), key, detail)
-			}
-		}
-		if !spec.hasFloat {
+		if fn == nil {
+			r.Unknown(token.NoPos, key, "the dispatcher does not hand "+n+" to one helper")
 			continue
 		}
-		// float path: the value returned under the float fast path
-		key = "evaluator." + name + " float path"
-		var fops []string
-		var good bool
-		for _, b := range fn.Blocks {
-			for _, in := range b.Instrs {
-				switch v := in.(type) {
-				case *ssa.BinOp:
-					if bt, ok := v.Type().Underlying().(*types.Basic); ok && bt.Info()&types.IsFloat != 0 {
-						switch v.Op {
-						case token.ADD, token.SUB, token.MUL, token.QUO:
-							fops = append(fops, v.Op.String())
-							if v.Op == spec.floatOp && floatOperand(v.X, 0) && floatOperand(v.Y, 1) {
-								if spec.floatFn == "" {
-									good = true
-								} else {
-									for _, ref := range *v.Referrers() {
-										if c, ok := ref.(*ssa.Call); ok && calleeFullName(&c.Call) == spec.floatFn {
-											good = true
-										}
-									}
-								}
-							}
-						}
-					}
-				case *ssa.Call:
-					n := calleeFullName(&v.Call)
-					if strings.HasPrefix(n, "math.") && n != "math.IsInf" && n != "math.IsNaN" {
-						fops = append(fops, n)
-						if spec.floatOp == token.ILLEGAL && n == spec.floatFn && len(v.Call.Args) == 2 && floatOperand(v.Call.Args[0], 0) && floatOperand(v.Call.Args[1], 1) {
-							good = true
-						}
-					}
-				}
+		nd := &numDom{p: p}
+		got, why := nd.runBinary(fn)
+		if why != "" {
+			r.Unknown(fn.Pos(), key, why)
+			continue
+		}
+		want := map[string]bool{}
+		for _, w := range opResults[n] {
+			want[w] = true
+		}
+		bad := false
+		for _, g := range sortedKeysPos(got) {
+			numeric := strings.HasPrefix(g, "numeric: ") || strings.Contains(g, "dec(") || strings.Contains(g, "fp0(") || strings.Contains(g, "fp1(") || strings.Contains(g, "flt(")
+			g0 := g
+			g = strings.TrimPrefix(g, "numeric: ")
+			got[g] = got[g0]
+			if numeric && !want[g] {
+				r.Bad(got[g], key+" :: "+g, fn.Name()+" returns this on numeric operands; the operator is specified as "+strings.Join(opResults[n], " or "))
+				bad = true
 			}
 		}
-		want := spec.floatOp.String()
-		if spec.floatFn != "" {
-			if spec.floatOp == token.ILLEGAL {
-				want = spec.floatFn + "(left, right)"
-			} else {
-				want = spec.floatFn + "(left " + spec.floatOp.String() + " right)"
+		for _, w := range opResults[n] {
+			if _, ok := got[w]; !ok {
+				r.Bad(fn.Pos(), key+" :: "+w, "no path of "+fn.Name()+" returns this")
+				bad = true
 			}
 		}
-		nOps := 1
-		if spec.floatFn != "" && spec.floatOp != token.ILLEGAL {
-			nOps = 2
-		}
-		if good && len(fops) == nOps {
-			r.OK(fn.Pos(), key, want)
-		} else {
-			r.Bad(fn.Pos(), key, fmt.Sprintf("expected the float path to compute %s on (left, right); found operations %v", want, fops))
+		if !bad {
+			r.OK(fn.Pos(), key, fn.Name()+": "+strings.Join(opResults[n], " ; "))
 		}
 	}
 }
@@ -654,7 +662,7 @@ func derivesFromParam(v ssa.Value, prm *ssa.Parameter) bool {
 		return false
 	}
 	cf := calleeOf(&c.Call)
-	return cf != nil && cf.Name() == "toDecimal" && c.Call.Args[0] == ssa.Value(prm)
+	return cf != nil && isRole(cf, "toDecimal") && c.Call.Args[0] == ssa.Value(prm)
 }
 
 // floatOperand: v is result #idx of toFloatPair.
@@ -668,7 +676,36 @@ func floatOperand(v ssa.Value, idx int) bool {
 		return false
 	}
 	cf := calleeOf(&c.Call)
-	return cf != nil && cf.Name() == "toFloatPair"
+	return cf != nil && isRole(cf, "toFloatPair")
+}
+
+// isRole: fn has the signature of the named numeric coercion helper (see roles_num.go).
+func isRole(fn *ssa.Function, role string) bool {
+	if fn == nil || fn.Signature.Recv() != nil {
+		return false
+	}
+	sig := fn.Signature
+	np, nres := sig.Params().Len(), sig.Results().Len()
+	for i := 0; i < np; i++ {
+		if !isAnyType(sig.Params().At(i).Type()) {
+			return false
+		}
+	}
+	f64 := func(t types.Type) bool {
+		b, ok := t.Underlying().(*types.Basic)
+		return ok && b.Kind() == types.Float64
+	}
+	switch role {
+	case "toDecimal":
+		return np == 1 && nres == 2 && isDecimal(sig.Results().At(0).Type()) && isBoolType(sig.Results().At(1).Type())
+	case "toFloat":
+		return np == 1 && nres == 2 && f64(sig.Results().At(0).Type()) && isBoolType(sig.Results().At(1).Type())
+	case "toFloatPair":
+		return np == 2 && nres == 3 && f64(sig.Results().At(0).Type()) && f64(sig.Results().At(1).Type()) && isBoolType(sig.Results().At(2).Type())
+	case "toInt":
+		return np == 1 && nres >= 2 && isIntType(sig.Results().At(0).Type()) && isBoolType(sig.Results().At(1).Type())
+	}
+	return false
 }
 
 func isDecimal(t types.Type) bool {
@@ -844,9 +881,9 @@ func rangeCheckedAnywhere(v ssa.Value) bool {
 }
 
 func ruleEToIntNoResult(p *Program, r *Reporter) {
-	toInt := p.Func(p.Eval, "", "toInt")
+	toInt := numericRoles(p).toInt
 	if toInt == nil {
-		r.Unknown(token.NoPos, "toInt", "integer coercion helper toInt not found")
+		r.Unknown(token.NoPos, "toInt", "integer coercion helper func(any) (int, bool, ...) not found: "+numericRoles(p).why)
 		return
 	}
 	for _, fn := range p.ReachFuncs(p.Eval) {
